@@ -5,8 +5,8 @@ EXTENDS JsonMap, Json
 
 B(base, a) == [base |-> base, a |-> a]
 IntBases(kinds) == [i \in 1..Len(kinds) |-> B("Int", kinds[i])]
-RefBases == <<B("Ref", "E"), B("Ref", "P"), B("Ref", "N"), B("Ref", "M")>>
-\* every base type: bool, the 12 integer kinds, f64, String, the four library declarations
+RefBases == <<B("Ref", "E"), B("Ref", "P"), B("Ref", "N"), B("Ref", "M"), B("Ref", "O")>>
+\* every base type: bool, the 12 integer kinds, f64, String, the five library declarations
 BasesAll   == <<B("Bool", "")>> \o IntBases(IntKindsAll) \o <<B("F64", ""), B("F32", ""), B("Str", "")>> \o RefBases
 BasesInts  == IntBases(IntKindsAll)
 WrapsInts  == << <<>>, <<"Opt">>, <<"Vec">>, <<"Vec", "Opt">> >>
@@ -14,6 +14,7 @@ BasesQuick == <<B("Bool", ""), B("Int", "u8"), B("Int", "i64"), B("Int", "u128")
 BasesMid   == <<B("Bool", ""), B("Int", "u8"), B("Int", "i32"), B("Int", "i64"), B("Int", "u64"), B("Int", "i128"), B("Int", "usize"),
                 B("F64", ""), B("Str", "")>> \o RefBases
 BasesTiny  == <<B("Int", "i64"), B("Str", ""), B("Ref", "E")>>
+BasesOpt   == <<B("Int", "i64"), B("Ref", "O")>>
 WrapsAll   == << <<>>, <<"Opt">>, <<"Vec">>, <<"Opt", "Vec">>, <<"Vec", "Opt">>, <<"Vec", "Vec">> >>
 WrapsTiny  == << <<>>, <<"Opt">>, <<"Vec">> >>
 \* renames for the exhaustive runs: two ordinary ones and one that is also a field identifier ("a")
